@@ -4,25 +4,48 @@ import XrsVerif.Model.Trim
 namespace XrsVerif.Driver.TrimCmd
 open XrsVerif XrsVerif.Wire XrsVerif.Trim
 
-def toRaster (g : GridOf Num) (ys xs : List Num) (attrs : String) : Raster Num String :=
-  ⟨g.h, g.w, fun y x => g.data.getD (y * g.w + x) .nan, fun y => ys.getD y .nan, fun x => xs.getD x .nan, attrs⟩
+/-- one coordinate variable `name~flags~attrs~HxW:codes` (flags: `y` / `-`, then `x` / `-`; the grid is
+    `(H or 1) x (W or 1)`, labels as codes) -/
+def parseCoord (s : String) : Option (Coord Num String) :=
+  match s.splitOn "~" with
+  | [name, flags, attrs, grid] => do
+    let g ← parseGrid parseNum grid
+    let onY := flags.startsWith "y"
+    let onX := flags.endsWith "x"
+    if flags.length ≠ 2 then none
+    some ⟨name, onY, onX, fun y x => g.data.getD ((if onY then y else 0) * g.w + (if onX then x else 0)) .nan, attrs⟩
+  | _ => none
+
+def parseCoords (s : String) : Option (List (Coord Num String)) :=
+  if s.isEmpty then some [] else (s.splitOn "/").mapM parseCoord
+
+def toRaster (g : GridOf Num) (ys xs : List Num) (attrs : String) (coords : List (Coord Num String) := []) :
+    Raster Num String :=
+  ⟨g.h, g.w, fun y x => g.data.getD (y * g.w + x) .nan, fun y => ys.getD y .nan, fun x => xs.getD x .nan, attrs, coords⟩
+
+def showCoord (c : WCoord Num String) : String :=
+  s!"{c.name}~{if c.onY then "y" else "-"}{if c.onX then "x" else "-"}~{c.attrs}~"
+    ++ (if c.vals.flatten.isEmpty then "empty" else showGrid showNum c.vals)
+
+def showCoords (cs : List (WCoord Num String)) : String := "/".intercalate (cs.map showCoord)
 
 def showBounds (b : Bounds) : String := s!"{b.top},{b.bottom},{b.left},{b.right}"
 
 def showWindow (w : Window Num String) : String :=
-  if w.cells.flatten.isEmpty then s!"empty|{w.attrs}|{w.name}"
+  if w.cells.flatten.isEmpty then s!"empty|{w.attrs}|{w.name}|{showCoords w.coords}"
   else showGrid showNum w.cells ++ "|" ++ ",".intercalate (w.ys.map showNum) ++ "|"
-    ++ ",".intercalate (w.xs.map showNum) ++ s!"|{w.attrs}|{w.name}"
+    ++ ",".intercalate (w.xs.map showNum) ++ s!"|{w.attrs}|{w.name}|{showCoords w.coords}"
 
-/-- `trim data=<grid> ex=<list> ys=<list> xs=<list> attrs=<tok> name=<tok>`
-    -> `t,b,l,r|<cells grid>|<ys>|<xs>|attrs|name`, or `t,b,l,r|empty|attrs|name` -/
+/-- `trim data=<grid> ex=<list> ys=<list> xs=<list> attrs=<tok> name=<tok> aux=<coord>/<coord>/…`
+    -> `t,b,l,r|<cells grid>|<ys>|<xs>|attrs|name|<coords>`, or `t,b,l,r|empty|attrs|name|<coords>` -/
 def cmdTrim (a : Args) : String := Id.run do
   let some g := a.get? "data" >>= parseGrid parseNum | return "bad-args data"
   let some ex := a.nums? "ex" | return "bad-args ex"
   let some ys := a.nums? "ys" | return "bad-args ys"
   let some xs := a.nums? "xs" | return "bad-args xs"
   if ys.length ≠ g.h ∨ xs.length ≠ g.w then return "bad-args coords"
-  let r := toRaster g ys xs ((a.get? "attrs").getD "")
+  let some cs := parseCoords ((a.get? "aux").getD "") | return "bad-args aux"
+  let r := toRaster g ys xs ((a.get? "attrs").getD "") cs
   return showBounds (trimBounds r ex) ++ "|" ++ showWindow (trim r ex ((a.get? "name").getD "trim"))
 
 /-- `crop zones=<grid> values=<grid> ids=<list> ys=<list> xs=<list> attrs=<tok> name=<tok>`
@@ -34,8 +57,9 @@ def cmdCrop (a : Args) : String := Id.run do
   let some ys := a.nums? "ys" | return "bad-args ys"
   let some xs := a.nums? "xs" | return "bad-args xs"
   if ys.length ≠ v.h ∨ xs.length ≠ v.w then return "bad-args coords"
+  let some cs := parseCoords ((a.get? "aux").getD "") | return "bad-args aux"
   let zr := toRaster z [] [] ""
-  let vr := toRaster v ys xs ((a.get? "attrs").getD "")
+  let vr := toRaster v ys xs ((a.get? "attrs").getD "") cs
   return showBounds (cropBounds zr ids) ++ "|" ++ showWindow (crop zr vr ids ((a.get? "name").getD "crop"))
 
 def handlers : List (String × (Args → String)) := [("trim", cmdTrim), ("crop", cmdCrop)]
